@@ -284,7 +284,7 @@ def defaults_are_values(ctx, report, RULE='C01.R17'):
     an object built without that argument holds the validator object as its value: the library lets the caller construct it, and it
     cannot be composed.  Every field declaration of the package is read: the positional argument, where there is one, is not a
     call into ``attr.validators`` (nor a converter / ``attr.Factory`` misplaced the same way is accepted as a value)."""
-    report.rule(RULE, 'field declarations: what stands in the position of the default is a value, not a validator')
+    report.rule(RULE, 'field declarations: what stands in the position of the default is a value, not a validator; a container default is of the kind the parser stores')
     n = 0
     for c in ctx.model.repo_classes():
         for fld in c.own_fields:
@@ -297,6 +297,43 @@ def defaults_are_values(ctx, report, RULE='C01.R17'):
                 report.add(RULE, '%s@field[%s]' % (c.construct, fld.name),
                            '%s.%s = attr.ib(%s): the validator is in the position of the default - it is never applied, and %s() built without '
                            'this argument holds the validator object as %s (composing it fails)' % (c.name, fld.name, ast.unparse(a)[:60], c.name, fld.name))
+    # a container default of another kind than what the parser stores: ``states = attr.ib(default=attr.Factory(dict))`` while
+    # parse_numeric_flags yields a set - the object built with the default is not equal to its own parse(compose()) ({} != set()),
+    # and renders as {} where the parsed one renders as []
+    KINDS = {'dict': 'dict', 'list': 'list', 'tuple': 'tuple', 'set': 'set', 'frozenset': 'set', 'collections.OrderedDict': 'dict', 'OrderedDict': 'dict'}
+    for c in ctx.model.repo_classes():
+        if not c.has_attrs():
+            continue
+        flag_keys = set()
+        for k in c.mro:
+            if not isinstance(k, ClassInfo):
+                continue
+            for g in k.methods.values():
+                if 'parse' not in g.name:
+                    continue
+                for x in ast.walk(g.node):
+                    if isinstance(x, ast.Call) and isinstance(x.func, ast.Attribute) and x.func.attr == 'parse_numeric_flags' and x.args and \
+                            isinstance(x.args[0], ast.Constant) and isinstance(x.args[0].value, str):
+                        flag_keys.add(x.args[0].value)
+        for fld in c.attrs_fields():
+            d = fld.default_node
+            if d is None or fld.name not in flag_keys:
+                continue
+            kind = None
+            if isinstance(d, ast.Call) and ast.unparse(d.func) in ('attr.Factory', 'Factory') and d.args:
+                kind = KINDS.get(ast.unparse(d.args[0]))
+            elif isinstance(d, ast.Dict):
+                kind = 'dict'
+            elif isinstance(d, (ast.List, ast.Tuple)):
+                kind = 'list' if isinstance(d, ast.List) else 'tuple'
+            elif isinstance(d, ast.Set) or (isinstance(d, ast.Call) and ast.unparse(d.func) in ('set', 'frozenset')):
+                kind = 'set'
+            n += 1
+            if kind is not None and kind != 'set' and fld.converter_node is None:
+                report.add(RULE, '%s@default-kind[%s]' % (c.construct, fld.name),
+                           '%s.%s defaults to an empty %s, the parser stores the set parse_numeric_flags yields: an object built with the default is '
+                           'not equal to its own parse(compose()) (%s != set()) and renders differently' % (
+                               c.name, fld.name, kind, {'dict': '{}', 'list': '[]', 'tuple': '()'}[kind]))
     report.count(RULE, n)
     report.floor(RULE, 300, 'field declarations')
 
